@@ -27,13 +27,24 @@ def pstr(p):
     return ".".join(str(i) for i in p) if p else "-"
 
 
-def gen_program(rng, nops):
+def gen_program(rng, nops, alias_item=True):
     root = {"id": 0, "kids": []}
     ops, outs, nid = [], [], 1
     for _ in range(nops):
         paths = list(all_paths(root))
         r = rng.random()
-        if r < 0.45 or len(paths) < 3:
+        if alias_item and len(paths) >= 2 and rng.random() < 0.2:
+            # `dst.kids += node(src)` by const&: src is often an item of dst.kids itself (the argument then lies in
+            # the storage that grows), sometimes an ancestor or any other node; value = snapshot, then append
+            d = rng.choice(paths)
+            kids = node_at(root, d)["kids"]
+            s_ = d + (rng.randrange(len(kids)),) if kids and rng.random() < 0.7 else rng.choice(paths)
+            snap = copy.deepcopy(node_at(root, s_))
+            if sum(1 for _ in all_paths(root)) + sum(1 for _ in all_paths(snap)) > 60:
+                continue
+            node_at(root, d)["kids"].append(snap)
+            ops.append("a%s=%s" % (pstr(d), pstr(s_)))
+        elif r < 0.45 or len(paths) < 3:
             p = rng.choice(paths)
             node_at(root, p)["kids"].append({"id": nid, "kids": []})
             ops.append("n%s:%d" % (pstr(p), nid)); nid += 1
@@ -84,8 +95,18 @@ def run(ctx, drv=None):
     for l, e in (("atree n-:1;n-:2;n0:3;c0=-", "0(1)|0(1 2)|0(1(3) 2)|0(1(1(3) 2) 2)"),
                  ("atree n-:1;n-:2;n0:3;n0:4;n0.0:5;c-=0", "0(1)|0(1 2)|0(1(3) 2)|0(1(3 4) 2)|0(1(3(5) 4) 2)|0(3(5) 4)")):
         lines.append(l); exp.append(e)
+    # the argument of `+=` inside the array that grows (probe of C14's `array-alias-item` family)
+    alias_item = getattr(ctx, "c14_flags", {}).get("array_alias_item")
+    if alias_item is None:
+        pl = "atree n-:1;n-:2;a-=0;a-=1;a-=2;a-=0;a0=0"
+        po, pf = core.run_lines(h, [pl])
+        alias_item = not pf and not po[0].startswith("FAULT")
+        if not alias_item:
+            ctx.fail("array-alias-item", "sanitizer fault appending an item of the array itself (recursive item type): " + pl, {"line": pl, "stderr": pf[0][2][-3000:] if pf else ""})
+    if alias_item:
+        lines.append("atree n-:1;n-:2;a-=0;a-=1;a-=2;a-=0;a0=0;a0.0=-"); exp.append(None)
     for _ in range(3000 if not ctx.thorough else 60000):
-        l, e = gen_program(rng, rng.randrange(2, 14))
+        l, e = gen_program(rng, rng.randrange(2, 14), alias_item)
         lines.append(l); exp.append(e)
     impl, faults = core.run_lines_parallel(h, lines, jobs=12)
     for i, kind, err in faults:
@@ -96,6 +117,7 @@ def run(ctx, drv=None):
     keep = [i for i in range(len(lines)) if not impl[i].startswith("FAULT")]
     ctx.correspond("array-tree(lean-model)", [mlines[i] for i in keep], [impl[i] for i in keep], [model[i] for i in keep],
                    nontrivial=lambda l: ("c" in l.split(" ")[1]) or ("m" in l.split(" ")[1]))
+    exp = [m if e is None else e for m, e in zip(model, exp)]
     for l, m, e in zip(lines, model, exp):
         if m != e:
             ctx.infra_errors.append("Lean tree model and the Python reference disagree on %s: %s vs %s" % (l, m[-160:], e[-160:]))
